@@ -1,7 +1,7 @@
 //! C11 / C14 (writer part): operation histories on a real `DeferredWriter` over a `SimSink`,
 //! checked against a byte-stream reference model and the sink's call log.
 
-use std::io::{ErrorKind, Write};
+use std::io::{self, ErrorKind, Write};
 
 use flussab::DeferredWriter;
 
@@ -127,7 +127,9 @@ fn gen_int(rng: &mut Rng) -> (u8, u128) {
     (ty, bits)
 }
 
-pub const FMT_KINDS: u8 = 14;
+pub const FMT_KINDS: u8 = 18;
+/// Kinds from here on are `write!` / `writeln!` calls on the writer itself (see `write_macro`).
+pub const FMT_MACRO_FROM: u8 = 14;
 
 /// Real format writers as workload. Deterministic in (kind, seed).
 fn fmt_write(w: &mut Option<DeferredWriter>, kind: u8, seed: u32) {
@@ -348,6 +350,44 @@ fn fmt_write(w: &mut Option<DeferredWriter>, kind: u8, seed: u32) {
             line.write_into(w.as_mut().unwrap());
         }
         _ => {}
+    }
+}
+
+/// `write!` / `writeln!` straight on the `DeferredWriter` (it implements `io::Write`, so
+/// `write_fmt` is part of its surface) with all kinds of arguments. The expected bytes come from
+/// std's `format!`, not from the writer. Deterministic in `seed`.
+fn write_macro(w: Option<&mut DeferredWriter>, seed: u32) -> (Vec<u8>, Option<io::Result<()>>) {
+    let mut rng = Rng::new(seed as u64 ^ 0xfa77);
+    let chars = ['a', 'Z', ' ', '\n', '0', '\u{b5}', '\u{e4}', '\u{df}', '\u{20ac}', '\u{1f600}', '\u{7f}', '\u{80}', '\u{ff}', '\u{100}'];
+    let c = *rng.pick(&chars);
+    let c2 = *rng.pick(&chars);
+    let text: String = (0..rng.small(24)).map(|_| *rng.pick(&chars)).collect();
+    let n = rng.next_u64() >> rng.below(64);
+    let i = (rng.next_u64() >> rng.below(64)) as i64 * if rng.chance(1, 2) { -1 } else { 1 };
+    let width = rng.small(40);
+    let f = (n as f64) / 7.0;
+    macro_rules! both {
+        ($($arg:tt)*) => {{
+            let exp = format!($($arg)*).into_bytes();
+            let r = w.map(|w| write!(w, $($arg)*));
+            (exp, r)
+        }};
+    }
+    match rng.below(14) {
+        0 => both!("{c}"),
+        1 => both!("{c}{c2}{c}"),
+        2 => both!("{text}"),
+        3 => both!("{text:?}"),
+        4 => both!("{c:?}"),
+        5 => both!("{n}"),
+        6 => both!("{i:+}"),
+        7 => both!("{n:>width$}"),
+        8 => both!("{n:\u{b7}>width$}"),
+        9 => both!("{text:\u{20ac}^width$}"),
+        10 => both!("{n:#x} {i:#b}"),
+        11 => both!("p cnf {n} {i}\n"),
+        12 => both!("{f:.3} {f:e}"),
+        _ => both!("{c:\u{e4}<width$}|"),
     }
 }
 
@@ -728,6 +768,13 @@ impl WriterProp {
                         }
                         appended = fill[..adv.min(l)].to_vec();
                     }
+                }
+                WOp::Fmt(k, s) if k >= FMT_MACRO_FROM => {
+                    let (exp, r) = write_macro(w.as_mut(), s);
+                    if let Some(Err(e)) = r {
+                        write_ret_bad = Some(format!("write!/writeln! returned Err({e})"));
+                    }
+                    appended = exp;
                 }
                 WOp::Fmt(k, s) => {
                     appended = fmt_expected(k, s);
